@@ -279,6 +279,12 @@ class CaseHooks(UnrollMixin, EBB3Hooks):
                         self.bad_index = 'the reply is indexed past its end for a bare-name reply'
                         return False
                     return comma == (cond.op == '==')
+        if isinstance(cond, Pred) and cond.name == 'startswith' and len(cond.args) == 2 and \
+                isinstance(cond.args[1], Str) and cond.args[1].is_lit() and \
+                cond.args[1].text() == ',' and isinstance(cond.args[0], Opaque) and \
+                cond.args[0].label == 'slice' and self.is_reply(cond.args[0].args[0]):
+            # reply[len(name):].startswith(','): slicing never indexes past the end
+            return bool(longer and comma)
         if isinstance(cond, Pred) and cond.name == 'startswith' and self.is_reply(cond.args[0]):
             self.names.append(cond.args[1])
             self.text_use(cond.args[0], 'startswith')
@@ -294,10 +300,15 @@ class CaseHooks(UnrollMixin, EBB3Hooks):
 
 
 def slice_start(v, hooks):
-    """For a value reply[a:] return a (Sym) else None."""
-    if isinstance(v, Opaque) and v.label == 'slice' and hooks.is_reply(v.args[0]) and \
-            v.args[2] == NONE and v.args[3] == NONE:
-        return v.args[1]
+    """For a value reply[a:] (or reply[a:][b:]) return the total start offset (Sym) else None."""
+    if isinstance(v, Opaque) and v.label == 'slice' and v.args[2] == NONE and v.args[3] == NONE \
+            and isinstance(v.args[1], Sym):
+        if isinstance(v.args[0], Opaque) and v.args[0].label == 'slice':
+            inner = slice_start(v.args[0], hooks)
+            # offsets of non-negative slices add up
+            return None if inner is None else inner + v.args[1]
+        if hooks.is_reply(v.args[0]):
+            return v.args[1]
     return None
 
 
@@ -529,7 +540,7 @@ def analyse(ck, prog, fixture=False, tier='quick'):
     methods = public_methods(cls)
     requests = []
     for name, fn in sorted(methods.items()):
-        if name in NOT_REQUESTS:
+        if name in NOT_REQUESTS or name.startswith('_'):
             continue
         outs = eng.run(name, OK, overrides=method_overrides(fn))
         if any(port_writes(o.state.effects) for o in outs):
